@@ -1,9 +1,53 @@
 import Octo.Drv.TrigCodec
+import Octo.Drv.SqlCodec
 /-! C16 driver: model outputs and the property oracle for the line protocol (see `Octo.Drv.Trig`). -/
 namespace Octo.Drv.C16
 open Octo Octo.Codec Octo.Trig Octo.Drv.Trig
 
-def model (toks : List String) : String := Octo.Drv.Trig.model toks
+/-! `trq <mode> <combo> <L> <maxdiff> <n> (<sec> <k> <v>)×n`: a whole query with a TRIGGER clause through the real binary
+    (harness/c16_cli.go): the rows of every tumbling window of length `L` and key `k`, grouped under trigger
+    combination `<combo>`; the printed result must be the batch grouping whatever the combination. -/
+structure Trq where
+  L : Nat
+  rows : List (Nat × Int × Int)     -- (sec, k, v)
+
+def parseTriples : Nat → List String → Option (List (Nat × Int × Int))
+  | 0, _ => some []
+  | n + 1, s :: k :: v :: rest => do
+    let s ← s.toNat?
+    let k ← k.toInt?
+    let v ← v.toInt?
+    let t ← parseTriples n rest
+    pure ((s, k, v) :: t)
+  | _, _ => none
+
+def parseTrq : List String → Option Trq
+  | "trq" :: _ :: _ :: l :: _ :: n :: rest => do
+    let rows ← parseTriples (← n.toNat?) rest
+    let L ← l.toNat?
+    if L == 0 then none else pure { L := L, rows := rows }
+  | _ => none
+
+/-- the batch grouping: one row (k, count, sum) per (window, key) -/
+def trqExpected (op : Trq) : List String :=
+  let groups := (op.rows.map fun r => (r.1 / op.L, r.2.1)).eraseDups
+  groups.map fun g =>
+    let members := op.rows.filter fun r => r.1 / op.L == g.1 && r.2.1 == g.2
+    let sum := members.foldl (fun acc r => acc + r.2.2) (0 : Int)
+    s!"#{g.2} #{members.length} #{sum}"
+
+def insertStr (s : String) : List String → List String
+  | [] => [s]
+  | x :: xs => if s < x then s :: x :: xs else x :: insertStr s xs
+def sortStrs (l : List String) : List String := l.foldr insertStr []
+
+def trqRender (rows : List String) : String :=
+  String.intercalate " | " (s!"rows {rows.length}" :: sortStrs rows)
+
+def model (toks : List String) : String :=
+  match toks with
+  | "trq" :: _ => (match parseTrq toks with | some op => trqRender (trqExpected op) | none => "bad-op")
+  | _ => Octo.Drv.Trig.model toks
 
 /-- the rows on which the final result has to be compared: every row the implementation emitted and every
     row of the batch grouping of the input -/
@@ -49,6 +93,16 @@ def judge (toks : List String) (out : List String) : String :=
             | some row => s!"bad simple-group-by-differs row={String.intercalate "," (row.map encodeValue)} out={net (recs o) row} spec={groupSpec op.conf op.nk (recs op.stream) row}"
             | none => "ok"
         | _ => "bad impl-" ++ String.intercalate "_" out
+  | "trq" :: _ =>
+    match parseTrq toks with
+    | none => "bad unparsable-op"
+    | some op =>
+      if out == ["panic"] then "bad go-panic"
+      else match Octo.Drv.SqlCodec.splitRows out with
+        | none => s!"bad no-rows-output {String.intercalate " " out}"
+        | some rendered =>
+          if trqRender rendered == trqRender (trqExpected op) then "ok"
+          else s!"bad triggered-query-result-differs-from-batch-grouping got={rendered.length} want={(trqExpected op).length}"
   | _ => "ok"
 
 end Octo.Drv.C16
